@@ -6,7 +6,7 @@ package primers
 //
 // verif:bound C17 sequence clause: orders 1..4 (quick) / 1..6 (thorough); a closed computation executed by the engine (no symbolic input, the solver decides nothing here)
 // verif:bound C17 barcode clauses: order 2 (quick) / 2..3 (thorough), barcode length n..5 (quick) / n..7 (thorough), 0..2 banned sequences as symbolic strings of length 2..3 over ATGC, 0..2 filters, each rejecting an arbitrary (symbolic) set of at most 1 (quick) / 2 (thorough) windows; at most 2 (quick) / 3 (thorough) bans+filters together
-// verif:bound C17 short-ban clause: order 3, barcode length 3..4 (quick) / 3..5 (thorough), one symbolic ban of length 1..2 (shorter than the order, so it occurs many times)
+// verif:bound C17 short-ban clause: order 3, barcode length 3..4 (quick) / 3..5 (thorough), one or two symbolic bans of length 1..2 (shorter than the order, so they occur many times)
 // verif:bound C17 outside the claim: orders 7..11 for the sequence, orders > 3 and lengths > 6 for barcodes, more than 2 bans / filters
 
 func c17Contains(hay, needle string) bool {
@@ -134,17 +134,23 @@ func Harness_C17_ShortBan() {
 	order := 3
 	length := 3 + vChoice(vTier(2, 3))
 	ban := vBytes(1+vChoice(2), "ATGC")
+	bans := []string{ban}
+	if vChoice(2) == 1 {
+		bans = append(bans, vBytes(2, "ATGC")) // a second short ban: the two keep re-introducing each other
+	}
 	vTerminates(3000000)
 	var codes []string
-	panicked := vPanics(func() { codes = CreateBarcodesWithBannedSequences(length, order, []string{ban}, nil) })
+	panicked := vPanics(func() { codes = CreateBarcodesWithBannedSequences(length, order, bans, nil) })
 	vAssert(!panicked, "barcode-generation-does-not-panic")
 	if panicked {
 		return
 	}
 	for _, c := range codes {
 		vAssert(len(c) == length, "barcode-has-requested-length")
-		vAssert(vNot(c17Contains(c, ban)), "barcode-contains-no-banned-sequence")
-		vAssert(vNot(c17Contains(c, c17RC(ban))), "barcode-contains-no-reverse-complement-of-a-ban")
+		for _, b := range bans {
+			vAssert(vNot(c17Contains(c, b)), "barcode-contains-no-banned-sequence")
+			vAssert(vNot(c17Contains(c, c17RC(b))), "barcode-contains-no-reverse-complement-of-a-ban")
+		}
 	}
 }
 
